@@ -48,7 +48,16 @@ func (c *Config) CountField(name string, opts ...Option) (int, error) {
 	if v == nil {
 		return -1, raiseMissing(c, name)
 	}
-	return v.Len(o)
+	n, lerr := v.Len(o)
+	if lerr != nil {
+		if e, ok := lerr.(Error); ok {
+			return -1, e
+		}
+		// (a reference that can not be resolved surfaces as the bare sentinel)
+		ctx := v.Context()
+		return -1, raisePathErr(lerr, v.meta(), "", ctx.path("."))
+	}
+	return n, nil
 }
 
 // Bool reads a boolean setting returning an error if the setting has no
